@@ -197,6 +197,17 @@ fn search_parallel(args: &HiArgs, mode: SearchMode) -> anyhow::Result<bool> {
                 Ok(search_result) => search_result,
                 Err(err) => {
                     err_message!("{}: {}", haystack.path().display(), err);
+                    // Whatever was found before the search failed has been
+                    // printed by now when searching with a single thread,
+                    // so print it here too.
+                    if let Err(err) = bufwtr.print(searcher.printer().get_mut())
+                    {
+                        if err.kind() == std::io::ErrorKind::BrokenPipe {
+                            broken_pipe.store(true, Ordering::SeqCst);
+                            return WalkState::Quit;
+                        }
+                        err_message!("{}: {}", haystack.path().display(), err);
+                    }
                     return WalkState::Continue;
                 }
             };
